@@ -515,6 +515,27 @@ def gen_macros(path):
         ps.append('(%d, %s)' % (n, ks))
     lines.append('  ' + ',\n  '.join(ps))
     lines.append(']')
+    # (e) self-containment of the prefixed macros: no TROMPELOEIL_ macro may expand to a short alias, which
+    #     does not exist when TROMPELOEIL_LONG_MACROS is defined
+    longs = set(sum((macro_dump(['TROMPELOEIL_LONG_MACROS'], std) for std in ('c++14', 'c++17', 'c++20')), []))
+    shorts = set(sum((macro_dump([], std) for std in ('c++14', 'c++17', 'c++20')), [])) - longs
+    uses = []
+    for name in sorted(bodies):
+        if not name.startswith('TROMPELOEIL_'):
+            continue
+        for params, body in bodies[name]:
+            plain = re.sub(r'"(?:\\.|[^"\\])*"', '""', body)
+            pnames = set(re.findall(r'\w+', params))
+            for tok in sorted(set(re.findall(r'\b[A-Za-z_]\w*\b', plain))):
+                if tok in shorts and tok not in pnames and (name, tok) not in uses:
+                    uses.append((name, tok))
+    lines.append('')
+    lines.append('/-- (prefixed macro, short alias its replacement list mentions): must be empty, the aliases do not exist under')
+    lines.append('    TROMPELOEIL_LONG_MACROS.  %d prefixed macro definitions scanned, %d short aliases. -/' % (
+        sum(len(v) for k, v in bodies.items() if k.startswith('TROMPELOEIL_')), len(shorts)))
+    lines.append('def shortUses : List (String × String) := [')
+    lines.append('  ' + ',\n  '.join('(%s, %s)' % (lean_string(a), lean_string(b)) for a, b in uses))
+    lines.append(']')
     lines += ['', 'end Tromp.Gen', '']
     text = '\n'.join(lines)
     if not os.path.exists(path) or open(path).read() != text:
